@@ -5,7 +5,8 @@
    route.py, dispatchlab correspondence. *)
 From Coq Require Import List String Bool ZArith.
 Import ListNotations.
-From ClasticV Require Import Base.Py Base.Strs Gen.Tables Gen.NormPathGen Model.Dispatch Proofs.DispatchProofs.
+From ClasticV Require Import Base.Py Base.Strs Gen.Tables Gen.NormPathGen Model.Pattern Model.Match Model.Dispatch
+     Proofs.DispatchProofs Proofs.MatchProofs Proofs.RoutingProofs.
 Local Open Scope string_scope.
 Local Open Scope list_scope.
 
@@ -26,6 +27,38 @@ Theorem C06_first_answerer :
   loop h meth canon rs 0 (mk_dstate [] []) = l k.
 Proof. exact first_answerer. Qed.
 Print Assumptions C06_first_answerer.
+
+(* ... COMPOSED WITH C05: when the match bits are computed from the DECLARED patterns by the pattern model
+   (Model/Match.match_path on the request path; this is what the harness tag dispatchfull runs against every table), the
+   answering route is the first one in order whose verdict stops, its pattern is assigned the path's segments (the
+   [assign] relation of C05) and it admits the method *)
+Theorem C06_first_answerer_from_patterns :
+  forall h meth canon path ds k l,
+  nth_error (map (verdict_of h meth canon) (map (droute_for path) ds)) k = Some (VStop l) ->
+  (forall k', k' < k -> exists v, nth_error (map (verdict_of h meth canon) (map (droute_for path) ds)) k' = Some v /\ is_stop v = false) ->
+  serve_decls h meth path canon ds = l k /\
+  exists d bindings ts tr caps,
+    nth_error ds k = Some d /\
+    match_path (mmode_of (rd_mode d)) (rd_pat d) path = Some bindings /\
+    tokenise path = Some (ts, tr) /\ gmatch (p_elems (rd_pat d)) ts = Some caps /\ assign (p_elems (rd_pat d)) ts caps /\
+    admits (rd_methods d) meth = true.
+Proof. exact first_answerer_from_patterns. Qed.
+Print Assumptions C06_first_answerer_from_patterns.
+
+(* a route whose pattern does not match the path, or that does not admit the method, never answers *)
+Theorem C06_non_matching_never_answers :
+  forall h meth canon path d,
+  match_path (mmode_of (rd_mode d)) (rd_pat d) path = None \/ admits (rd_methods d) meth = false ->
+  is_stop (verdict_of h meth canon (droute_for path d)) = false.
+Proof. exact no_match_no_stop. Qed.
+Print Assumptions C06_non_matching_never_answers.
+
+Theorem C06_no_pattern_matches_404 :
+  forall h meth canon path ds,
+  (forall d, In d ds -> match_path (mmode_of (rd_mode d)) (rd_pat d) path = None) ->
+  serve_decls h meth path canon ds = LHttp (List.length ds) 404%Z [].
+Proof. exact no_pattern_matches_404. Qed.
+Print Assumptions C06_no_pattern_matches_404.
 
 Theorem C06_no_match_404 :
   forall h meth canon rs, (forall r, In r rs -> d_match r = false) ->
